@@ -29,14 +29,18 @@ claim("C14",
       "Not decided: wall-clock behaviour, cancellation timing, HTTP status classification in the Upload* closures.",
       "DESIGN.md 4 C14")
 claim("C18",
-      "Proof that collector.getName never panics for every non-empty instrument name, unit, namespace and type (the index into the trimmed name is guarded), and that counters end in _total; convertsToUnderscore table.",
-      _TB + "model.EscapeName (prometheus/common) is assumed to return a non-empty name for a non-empty input. Not decided: registry acceptance, concurrent scrapes, getAttrs/histogram conversion (not yet under contract).",
+      "Proof that collector.getName never panics for every non-empty instrument name, unit, namespace and type (the index into the trimmed name is guarded), and that counters end in _total; convertsToUnderscore table; "
+      "getAttrs returns label names and values of equal length in both branches; the metric-type table (histograms -> HISTOGRAM, monotonic sums -> COUNTER, other sums and gauges -> GAUGE); explicit histograms: the series count/sum are the data point's count/sum, "
+      "labels stay paired, bucket index in range given len(BucketCounts) > len(Bounds); sums/gauges: value and value type as specified; validateMetrics: family table only under the lock, first definition of a name is kept.",
+      _TB + "model.EscapeName (prometheus/common) is assumed to return a non-empty name for a non-empty input; Prometheus client constructors are unknown calls. Not decided: registry acceptance, concurrent scrapes, cumulative bucket sums (no summation operator), exponential histograms, exemplars.",
       "DESIGN.md 4 C18")
 claim("C20",
       "Proof for every environment content (os.Getenv as an arbitrary function of the key, strconv.Atoi as an arbitrary partial function): IntEnvOr/firstInt return the parsed value of the first non-empty key "
       "else the default, unparsable => default, signal-specific key before generic key for the span limits; NewBatchSpanProcessor has no run-time panic (make(chan)/make([]T) sizes) for every integer the environment or an option can supply.",
       _TB + "Options are unknown function values that may write the options struct arbitrarily; integer overflow in duration arithmetic is assumed absent (wraps, never panics). "
-      "Not decided: log SDK resolver chain, OTLP exporter option/env folds, wire behaviour.",
+      "Also (four generated copies each, one contract text): the OTLP environment readers WithString/WithBool/WithDuration pass a set variable on exactly once and nothing for an unset or unparsable one, GetEnvValue is present iff non-empty after trimming, "
+      "WithEnvCompression passes gzip for \"gzip\" and NO compression for every other set value (so a signal-specific \"none\" overrides a generic \"gzip\"). "
+      "Not decided: log SDK resolver chain, the ORDER of generic-before-specific readers in getOptionsFromEnv (a list of closures), option folds, wire behaviour.",
       "DESIGN.md 4 C20")
 claim("C04",
       "Proof for every attribute list, limit and call order of the span mutators: bounded FIFO (evictedQueue.add for events and links) against a sequence view, per-event/-link attribute caps and dropped counts, "
@@ -59,8 +63,9 @@ claim("C10",
       "DESIGN.md 4 C10")
 claim("C19",
       "Proof of Merge's case analysis for all resources: nil identities, the four-row schema URL table including the conflict error, the merge iterator is built with b first (b wins by the proved 'first iterator wins' step contract), "
-      "and every attribute the iterator yields reaches the new resource also on a conflict.",
-      _TB + "Not decided: the merged list as a full right-biased union and the algebraic laws (need a recursive merge specification), environment parsing, detectors.",
+      "and every attribute the iterator yields reaches the new resource also on a conflict; OTEL_RESOURCE_ATTRIBUTES parsing (constructOTResources): key and value are trimmed before the value is percent-decoded, the decoded value is used unchanged, "
+      "pairs without '=' are skipped and make the error non-nil, every pair is either kept or reported.",
+      _TB + "Not decided: the merged list as a full right-biased union and the algebraic laws (need a recursive merge specification), url.PathUnescape itself (standard library), detectors.",
       "DESIGN.md 4 C19")
 claim("C17",
       "Proof for every attribute list and limit: dedup in place over the caller's array (keys unique, duplicates counted, no key lost), head, the index map of existing attributes, addAttrs/SetAttributes/AddAttributes: "
